@@ -3,6 +3,8 @@
 the block between the SEEDED-TABLE markers of DESIGN.md §11."""
 import json, os, sys
 rows, n, own_n = [], 0, 0
+fp = json.load(open('/verif/seeded/first_pass.json'))['first_pass'] if os.path.exists('/verif/seeded/first_pass.json') else {}
+stats = {'own': 0, 'sibling': 0, 'none': 0}
 first_only_sibling = {'C08-1', 'C08-2', 'C01-1', 'C10-1', 'C05-2', 'C07-1', 'C07-2', 'C09-2', 'C12-2', 'C14-2'}
 for sid in sorted(os.listdir('/verif/seeded')):
     mp = os.path.join('/verif/seeded', sid, 'meta.json')
@@ -20,9 +22,12 @@ for sid in sorted(os.listdir('/verif/seeded')):
     summ = (m.get('summary') or '').replace('|', '/').replace('\n', ' ')
     if len(summ) > 230:
         summ = summ[:227] + '…'
-    rows.append('| %s | %s | %s | %s |' % (sid, summ, mine, others or '—'))
-table = '%d confirmed seeded changes, %d reported by the check of their own property.\n\n' % (n, own_n)
-table += '| id | change (one sentence, as delivered by the sub-agent) | reported by its own check (rule `key`) | also reported by |\n|---|---|---|---|\n' + '\n'.join(rows) + '\n'
+    first = fp.get(sid, 'own')
+    stats[first.split(':')[0]] += 1
+    rows.append('| %s | %s | %s | %s | %s |' % (sid, summ, first.replace('sibling:', 'only ').replace('none', '**no check**'), mine, others or '—'))
+table = ('%d confirmed seeded changes. First pass (checks as they stood when the change arrived): %d reported by their own property\'s check, %d only by a '
+         'sibling property\'s check, %d by no check. Now (after the rules of §5.0.1 were added): %d of %d reported by their own property\'s check.\n\n' % (n, stats['own'], stats['sibling'], stats['none'], own_n, n))
+table += '| id | change (one sentence, as delivered by the sub-agent) | first pass | now reported by its own check (rule `key`) | also by |\n|---|---|---|---|---|\n' + '\n'.join(rows) + '\n'
 if '--update-design' in sys.argv:
     p = '/verif/DESIGN.md'
     s = open(p).read()
